@@ -261,7 +261,7 @@ impl World {
         if rng.chance(1, 3) {
             proofs.push(b.proof());
         }
-        let choice = rng.below(28);
+        let choice = rng.below(29);
         let (label, manifest): (&'static str, TransactionManifestV1) = match choice {
             0 | 1 => {
                 let f = rng.pick(&self.fungibles).clone();
@@ -467,6 +467,22 @@ impl World {
                     m = m.assert_worktop_contains(XRD, Decimal::MAX);
                 }
                 ("late_fee_lock", m.build())
+            }
+            28 => {
+                // role-assignment calls with edge-case role keys (empty, reserved prefix, very long, unknown)
+                let key: String = match rng.below(7) {
+                    0 => String::new(),
+                    1 => "_".into(),
+                    2 => "_owner_".into(),
+                    3 => "_self_".into(),
+                    4 => "x".repeat(rng.range(1, 300) as usize),
+                    5 => "é".into(),
+                    _ => (*rng.pick(&["withdrawer", "minter", "depositor", "metadata_setter", "securify"])).to_string(),
+                };
+                let module = *rng.pick(&[ModuleId::Main, ModuleId::Metadata, ModuleId::RoleAssignment, ModuleId::Royalty]);
+                let target: GlobalAddress = if rng.bool() { a.account.into() } else { rng.pick(&self.fungibles).address.into() };
+                let m = if rng.bool() { mb.set_role(target, module, RoleKey::new(key), rule!(allow_all)) } else { mb.get_role(target, module, RoleKey::new(key)) };
+                ("role_key_edge", m.build())
             }
             20 => {
                 let div = *rng.pick(&[0u8, 1, 6, 17, 18]);
